@@ -204,6 +204,15 @@ theorem step_inv (bound maxSize : Nat) (hm : maxSize ≤ bound) (s : TxRing × H
                        all_goals exact ⟨hr, hl, hc, hrm⟩
   | registerDispatcher => exact ⟨hr, hl, hc, hrm⟩
 
+/-- The invariant holds in every reachable state. -/
+theorem inv_reachable (initial maxSize : Nat) (ops : List Op) :
+    Inv (max initial maxSize) (ops.foldl (step maxSize) (TxRing.new initial, {})) := by
+  have key : ∀ s, Inv (max initial maxSize) s → Inv (max initial maxSize) (ops.foldl (step maxSize) s) := by
+    induction ops with
+    | nil => intro s h; exact h
+    | cons op t ih => intro s h; exact ih _ (step_inv _ maxSize (by omega) s op h)
+  exact key _ (by unfold Inv TxRing.new; simp; omega)
+
 /-- **Bounded buffering for every history**: for all write sizes and timings, all acknowledgement
 schedules (including a peer that never acknowledges), all initial/maximum sizes — the bytes accepted
 but not yet acknowledged are exactly the ring content, in order, and never exceed
